@@ -12,8 +12,10 @@ mod model;
 mod c01;
 mod c04;
 mod c05;
+mod c07;
 mod c15;
 mod c17;
+mod c20;
 
 #[global_allocator]
 static GLOBAL: alloc_mon::CountingAlloc = alloc_mon::CountingAlloc;
@@ -45,6 +47,9 @@ fn main() {
         "c05-txn" => c05::txn_leg(&args),
         "c05-atomic" => c05::atomic_leg(&args),
         "c17-unchanged" => c17::leg(&args),
+        "c07-laws" => c07::laws_leg(&args),
+        "c20-dump" => c20::dump_cmd(&args),
+        "c20-repro" => c20::repro_leg(&args),
         "c15-parse" => c15::parse_leg(&args),
         "c15-frag" => c15::frag_leg(&args),
         "c15-reply" => c15::reply_leg(&args),
